@@ -3,6 +3,7 @@ from .. import ep
 from ..model import AnalysisError
 from ..values import *     # noqa
 from ..symeval import RaiseSignal
+from ..symeval_ops import ExcV as ExcV_
 from ..symeval_ops import ExcV, NTV, PyObjV, DerivV
 from .. import formrules as F
 from .. import writerules as W
@@ -404,11 +405,97 @@ def wrappers(chk, P):
     tableform_derivs(chk, P, "C07.O7")
 
 
-def tableform_derivs(chk, P, rule):
+TABLES = (("uneven", (1, 2, 4, 7)), ("even", (1, 2, 3, 4, 5)))
+
+
+def tableform_derivs(chk, P, rule, clauses=("derivs",)):
+    """every interpolation class the table-form builder can pick (found the way the builder finds them): a thin wrapper of
+    a library interpolant is decided on opaque data (its derivative objects are the interpolant's own); any other class is
+    evaluated on concrete knots with symbolic y values - at the knots, outside the data and, with x confined to one knot
+    interval at a time, between them"""
+    for label, tf in F.tableform_classes(P):
+        if tf.lookup("interpolant") is not None:
+            if "derivs" in clauses:
+                _wrapper_derivs(chk, P, rule, label, tf)
+        else:
+            _tableform_on_knots(chk, P, rule, label, tf, clauses)
+
+
+def _tableform_on_knots(chk, P, rule, label, tf, clauses):
+    from ..symeval import RaiseSignal
+    has = dict((m, tf.lookup(m) is not None) for m in ("deriv", "deriv2"))
+    for tname, xs in TABLES:
+        n = len(xs)
+        for pres in ("ascending", "descending"):
+            order = list(range(n)) if pres == "ascending" else list(range(n - 1, -1, -1))
+            J = F.make_interp(P)
+            xl = ListV([Num(ep.const(xs[i])) for i in order], "list")
+            yl = ListV([Num(ep.sym("y%d" % i)) for i in order], "list")
+            what = "table form %r, %s knots %s listed %s" % (label, tname, list(xs), pres)
+            key = "%s|tableform|%s|%s|%s" % (rule, label, tname, pres)
+            if pres == "descending":
+                # a class that hands unsorted knots straight to a library routine defined for increasing knots only does not
+                # offer such data (C18 speaks of strictly increasing x); a class that orders its data first is evaluated
+                try:
+                    probe = F.make_interp(P)
+                    pi = probe.instantiate(tf, [xl, yl], {}, None)
+                    probe.call(pi, [Num(ep.const(xs[1]))], {})
+                except RaiseSignal:
+                    pass
+                except AnalysisError as e:
+                    if "not increasing" in str(e) or "not sorted" in str(e):
+                        chk.assume("table form %r passes its knots unsorted to a routine defined for increasing knots: decreasing "
+                                   "listings are outside its (and C18's) domain" % label)
+                        continue
+                    raise
+            try:
+                inst = J.instantiate(tf, [xl, yl], {}, None)
+            except RaiseSignal as e:
+                chk.ob(rule, "%s: accepted" % what, pres == "descending", site=tf.site_of("__init__"), found=e.exc,
+                       expect="a table form" if pres == "ascending" else "a table form or a refusal", key=key + "|accepted")
+                continue
+
+            def ev(meth, x, J=J, inst=inst):
+                try:
+                    return J.num(J.call(J.getattr(inst, meth) if meth != "__call__" else inst, [Num(x)], {}))
+                except RaiseSignal as e:
+                    return e.exc
+
+            def same(a, b):
+                return not isinstance(a, ExcV_) and ep.equal(a, b)[0]
+            if "points" in clauses:
+                for i in range(n):
+                    v = ev("__call__", ep.const(xs[i]))
+                    chk.ob(rule, "%s: the value at the knot x = %s is the tabulated y" % (what, xs[i]), same(v, ep.sym("y%d" % i)),
+                           site=tf.site_of("__call__"), found=v, expect="y%d" % i, key=key + "|knot%d" % i)
+                for x0 in (xs[0] - 1, xs[-1] + 1):
+                    v = ev("__call__", ep.const(x0))
+                    chk.ob(rule, "%s: the value outside the data range (x = %s) is 0" % (what, x0), same(v, ep.const(0)),
+                           site=tf.site_of("__call__"), found=v, expect=0, key=key + "|outside%s" % x0)
+            if "derivs" in clauses and has["deriv"]:
+                ivs = [(xs[k], xs[k + 1]) for k in range(n - 1)] + [(xs[0] - 5, xs[0]), (xs[-1], xs[-1] + 5)]
+                for lo, hi in ivs:
+                    J.sym_intervals = {"x": (lo, hi)}
+                    try:
+                        v = ev("__call__", ep.sym("x"))
+                        d1 = ev("deriv", ep.sym("x"))
+                        ok = not isinstance(v, ExcV_) and not isinstance(d1, ExcV_) and ep.equal(d1, ep.D(v, "x"))[0]
+                        chk.ob(rule, "%s: deriv(x) is d/dx of the value for %s < x < %s" % (what, lo, hi), ok, site=tf.site_of("deriv"),
+                               found=d1, expect=(ep.D(v, "x") if not isinstance(v, ExcV_) else v), key=key + "|deriv|%s-%s" % (lo, hi))
+                        if has["deriv2"] and not isinstance(d1, ExcV_):
+                            d2 = ev("deriv2", ep.sym("x"))
+                            ok = not isinstance(d2, ExcV_) and ep.equal(d2, ep.D(d1, "x"))[0]
+                            chk.ob(rule, "%s: deriv2(x) is d/dx of deriv for %s < x < %s" % (what, lo, hi), ok, site=tf.site_of("deriv2"),
+                                   found=d2, expect=ep.D(d1, "x"), key=key + "|deriv2|%s-%s" % (lo, hi))
+                    finally:
+                        J.sym_intervals = {}
+
+
+def _wrapper_derivs(chk, P, rule, label, tf):
     r = Num(ep.sym("r"))
     # table form: derivative objects
     J = F.make_interp(P)
-    tf = P.cls("atsim.potentials.tableforms", "Cubic_Spline_Table_Form")
+    tag = "tableform" if label == "cubic_spline" else "tableform:" + label
     inst = J.instantiate(tf, [W.param("x"), W.param("y")], {}, None)
     # through the public surface: the documented .interpolant property and the three evaluation methods
     interp = J.getattr(inst, "interpolant")
@@ -424,14 +511,14 @@ def tableform_derivs(chk, P, rule):
 
     def is_app(v, path):
         return ipath is not None and isinstance(v, Num) and ep.equal(v.rf, ep.app(path, [ep.sym("x")]))[0]
-    chk.ob(rule, "table form: deriv evaluates interpolant.derivative() (first derivative, no order argument)", is_app(got["deriv"], dpath),
-           site=site, found=got["deriv"], expect="interpolant.derivative()(x)", key=rule + "|tableform|deriv")
-    chk.ob(rule, "table form: deriv2 evaluates interpolant.derivative().derivative() (first derivative of the first derivative)",
+    chk.ob(rule, "table form %r: deriv evaluates interpolant.derivative() (first derivative, no order argument)" % label, is_app(got["deriv"], dpath),
+           site=site, found=got["deriv"], expect="interpolant.derivative()(x)", key=rule + "|%s|deriv" % tag)
+    chk.ob(rule, "table form %r: deriv2 evaluates interpolant.derivative().derivative() (first derivative of the first derivative)" % label,
            is_app(got["deriv2"], d2path), site=site, found=got["deriv2"], expect="interpolant.derivative().derivative()(x)",
-           key=rule + "|tableform|deriv2")
+           key=rule + "|%s|deriv2" % tag)
     for meth, path in (("__call__", ipath), ("deriv", dpath), ("deriv2", d2path)):
         chk.ob(rule, "table form %s evaluates its own spline object at the argument x" % meth, is_app(got[meth], path),
-               site=tf.lookup(meth).site(), found=got[meth], expect="<spline object>(x)", key=rule + "|tableform|%s-eval" % meth)
+               site=tf.lookup(meth).site(), found=got[meth], expect="<spline object>(x)", key=rule + "|%s|%s-eval" % (tag, meth))
 
 
 def force(chk, P):
